@@ -138,6 +138,13 @@ def r14_1(ctx):
     (ctx.ok(construct, df.loc()) if ok else ctx.bad(construct, "diff() changed shape", df.loc()))
 
 
+def _parents(repo, n, stop):
+    p = repo.parent(n)
+    while p is not None and p is not stop:
+        yield p
+        p = repo.parent(p)
+
+
 def r14_2(ctx):
     """R14.2 key-set stability: diff reports only keys of the new snapshot, so a getter whose key set depends on the
     configuration can never withdraw a key. visible/defaults insert unconditionally; values is exempt by the property's
@@ -154,18 +161,61 @@ def r14_2(ctx):
                   and ast.unparse(n.targets[0].value) == subj]
         if not stores:
             raise AnchorError(f"{f.short}: no store into {subj}")
+        construct = f"{f.short}/key set of channel `{ch}` does not depend on the configuration"
+        # the key is present iff one of the stores runs: OR over the stores' guard sets. It must cover every item of the right
+        # type (for `values`: every item with a non-empty config_string - the property gives the other ones a meaning).
+        import itertools
+        gsets = []
+        for st_ in stores:
+            g = fl.guards_at(st_) or set()
+            gsets.append({(k, pol) for k, pol in g if not (("isinstance" in k or "type(" in k) and pol)})
+        in_try = any(isinstance(p, ast.Try) and any(h.type is not None and "AttributeError" in ast.unparse(h.type) for h in p.handlers)
+                     for p in _parents(repo, stores[0], f.node))
+        def leaves(e):
+            if isinstance(e, ast.BoolOp):
+                return set().union(*[leaves(x) for x in e.values])
+            if isinstance(e, ast.UnaryOp) and isinstance(e.op, ast.Not):
+                return leaves(e.operand)
+            return {ast.unparse(e)}
+
+        def ev_key(e, v):
+            if isinstance(e, ast.BoolOp):
+                vals_ = [ev_key(x, v) for x in e.values]
+                return all(vals_) if isinstance(e.op, ast.And) else any(vals_)
+            if isinstance(e, ast.UnaryOp) and isinstance(e.op, ast.Not):
+                return not ev_key(e.operand, v)
+            return v[ast.unparse(e)]
+
+        parsed = {}
+        for g in gsets:
+            for k, _ in g:
+                try:
+                    parsed[k] = ast.parse(k, mode="eval").body
+                except SyntaxError:
+                    parsed[k] = ast.Name(id=k, ctx=ast.Load())
+        atoms = sorted(set().union(*[leaves(e) for e in parsed.values()])) if parsed else []
+        missing = []
+        if len(atoms) > 12:
+            raise AnalysisError(f"{f.short}: {len(atoms)} conditions around the stores into {subj}")
+        allowed = [k for k in atoms if ch == "values" and "config_string" in k]
+        for vals in itertools.product((True, False), repeat=len(atoms)):
+            v = dict(zip(atoms, vals))
+            if any(not v[k] for k in allowed):
+                continue  # config_string empty: the documented meaning of an absent key
+            if not any(all(ev_key(parsed[k], v) == pol for k, pol in g) for g in gsets):
+                missing.append(sorted((k, val) for k, val in v.items() if k not in allowed))
+                break
         gs = fl.guards_at(stores[0]) or set()
         cond = sorted(g for g in gs if "isinstance" not in g[0])
-        construct = f"{f.short}/key set of channel `{ch}` does not depend on the configuration"
-        if not cond:
-            ctx.ok(construct, f.loc(stores[0]))
-        elif ch == "values" and all("config_string" in k for k, _ in cond):
+        if missing:
+            ctx.bad(construct, f"no key is inserted on the path(s) taken under {missing[:2]}: when that condition holds the key silently disappears "
+                    "from the snapshot, diff() cannot report it and the client keeps the stale entry", f.loc(stores[0]))
+        elif ch == "values" and any("config_string" in k for k, _ in cond):
             ctx.exempt(construct, "a key is present iff config_string is non-empty; the property itself gives absent options a meaning "
                        "(\"every option missing from that state is reported invisible\") - checked below: _write_to_conf is not lowered",
                        f.loc(stores[0]))
         else:
-            ctx.bad(construct, f"a key is inserted only under {cond}: when that condition turns false the key silently disappears from "
-                    "the snapshot, diff() cannot report it and the client keeps the stale entry", f.loc(stores[0]))
+            ctx.ok(construct, f.loc(stores[0]))
     # _write_to_conf: initialised from visibility, afterwards only raised
     for q in (f"{CORE}:Symbol.str_value", f"{CORE}:Symbol.bool_value"):
         f = repo.func(q)
